@@ -6,6 +6,7 @@ Inductive json :=
   | JNull
   | JBool (b : bool)
   | JNum (z : Z)
+  | JNumF (lit : string)   (* a number literal that is not a plain integer: 1.5, 1e3, -0 ... *)
   | JStr (s : string)
   | JArr (l : list json)
   | JObj (l : list (string * json)).
@@ -74,6 +75,7 @@ Fixpoint render (j : json) : string :=
   | JBool true => "true"
   | JBool false => "false"
   | JNum z => Z_to_dec z
+  | JNumF lit => lit
   | JStr s => quote s
   | JArr l => "[" ++ join "," (map render l) ++ "]"
   | JObj l => "{" ++ join "," (map (fun p => quote (fst p) ++ ":" ++ render (snd p)) l) ++ "}"
